@@ -23,6 +23,11 @@ regenerated lock table; the lines handled here connect the harness to that table
   (`Model/TxCount.lean`, atomic alphabet, a seeded interleaving of n × min(k, 48) enter/leave pairs
   with a resize falling due) predicts `completed` — the counter is back to 0 and the resize runs
   (`count_eq_open`); a stall of the real store is a `#ORACLE-FAIL` of the harness and a DIFF here;
+* `conc segcache round=… archive_height=… fork_from=… top=… => ok`: run `segcache` — after a reorg
+  rooted below the archive header (same archive height, other archive header) a fresh node was
+  state-synced from the segments `Chain::segmenter()` serves; the expected answer is `ok` (every
+  segment validated against the current archive header, the assembled state has its roots); the
+  tree and the deliveries of that run also go through the `chain` domain;
 * the final (head, unspent set) of a concurrent run is compared by the `chain` domain
   (`chain obs <twin> => …`), not here. -/
 namespace GV.Drv.ConcD
@@ -84,6 +89,10 @@ def handle (st : St) (args : List String) (impl : String) : St × Verdict :=
       match threads.mapM progOf with
       | some progs => ({ st with sims := st.sims + 1 }, cmpModel (simAll progs seed) impl)
       | none => (st, .diff "op-not-in-lock-table")
+    | _, _ => (st, .unknown)
+  | "segcache" :: rest =>
+    match kvArg rest "archive_height", kvArg rest "fork_from" with
+    | some _, some _ => (st, cmpModel "ok" impl)
     | _, _ => (st, .unknown)
   | "txcount" :: rest =>
     match (kvArg rest "threads").bind String.toNat?, (kvArg rest "reads").bind String.toNat?,
